@@ -316,3 +316,12 @@ PROPS = {
                       "by the events so far and checked for internal consistency. Non-trivial = at least 2 jobs.",
                  nontrivial=lambda cfg, r: len(cfg["jobs"]) > 2),
 }
+
+
+def _upgrade():
+    from .props_sched import upgrade
+    upgrade(PROPS["C12"])
+    upgrade(PROPS["C01"])
+
+
+_upgrade()
